@@ -2,7 +2,7 @@
    operators and count aggregations composed arbitrarily; every node's stream
    against the reference evaluation of the node. *)
 From Coq Require Import List ZArith NArith Bool Lia Permutation.
-From Verif Require Import Base Grid Select SelectProofs Shard SelectorProofs Exec Compose StreamWF Range MatrixRun Agg AggProofs Func Bin BinProofs EndToEnd AggEnd.
+From Verif Require Import Base Grid Select SelectProofs Shard SelectorProofs Exec Compose StreamWF Range MatrixRun Agg AggProofs Func Bin BinProofs EndToEnd AggEnd Topk TopkProofs TopkTree.
 Import ListNotations.
 Open Scope Z_scope.
 
@@ -29,6 +29,8 @@ Inductive jtree :=
 (* an aggregation whose accumulator takes its first value through [init] and every further one
    through [add] (sum: v, +; max: v, max; min; group: 1, keep): scalarTable with its reused table *)
 | JAgg (init : Z -> Z) (add : Z -> Z -> Z) (without : bool) (grouping : list N) (t : jtree)
+(* topk / bottomk [by|without] (k, t) with a literal k; the heaps of kAggregate, per step *)
+| JTopk (bottom : bool) (k : nat) (without : bool) (grouping : list N) (t : jtree)
 (* a step-invariant subtree (StepInvariantExpr): evaluated once on the window [start, start]
    and repeated at every step by the stepInvariantOperator *)
 | JInvariant (t : jtree).
@@ -38,6 +40,7 @@ Fixpoint jseries (t : jtree) : list labels :=
   match t with
   | JLeaf ls _ _ _ => ls
   | JRange keep _ _ ls _ _ _ => map (fun m => if keep then m else del_name m) ls
+  | JTopk _ _ _ _ t => jseries t
   | JInvariant t => jseries t
   | JJoin p l r => op_series (jp_on p) (jp_ml p) (jp_incl p) (jp_card p) (jp_bool p) (jp_drops p) (jseries l) (jseries r)
   | JMap drops _ t => map (fun m => if drops then del_name m else m) (jseries t)
@@ -101,6 +104,36 @@ Definition ref_agg (init : Z -> Z) (add : Z -> Z -> Z) (without : bool) (groupin
                      end)
            (nodup labels_dec (map key smp)).
 
+(* ---- topk / bottomk ------------------------------------------------------------------- *)
+
+(* samplesHeap.Less on numbers: < for topk, > for bottomk *)
+Definition ltk (bottom : bool) : Z -> Z -> bool := if bottom then (fun a b => Z.ltb b a) else Z.ltb.
+
+Fixpoint nodupb (l : list Z) : bool :=
+  match l with [] => true | x :: r => negb (existsb (Z.eqb x) r) && nodupb r end.
+
+Definition tkey (without : bool) (grouping : list N) (mv : labels * Z) : labels := group_labels without grouping (fst mv).
+
+Definition has_key (without : bool) (grouping : list N) (kk : labels) (mv : labels * Z) : bool :=
+  if labels_dec (tkey without grouping mv) kk then true else false.
+
+(* a sample is kept iff fewer than k samples of its group are strictly better *)
+Definition ref_keep (bottom : bool) (k : nat) (without : bool) (grouping : list N) (smp : list (labels * Z)) (x : labels * Z) : bool :=
+  Nat.ltb (length (filter (fun y => has_key without grouping (tkey without grouping x) y && ltk bottom (snd x) (snd y)) smp)) k.
+
+(* no two samples of a group have the same value (otherwise the reference's choice is its heap's) *)
+Definition ties_free (without : bool) (grouping : list N) (smp : list (labels * Z)) : bool :=
+  forallb (fun kk => nodupb (map snd (filter (has_key without grouping kk) smp)))
+          (nodup labels_dec (map (tkey without grouping) smp)).
+
+Definition ref_topk (bottom : bool) (k : nat) (without : bool) (grouping : list N) (smp : list (labels * Z))
+  : option (list (labels * Z)) :=
+  if ties_free without grouping smp then Some (filter (ref_keep bottom k without grouping smp) smp) else None.
+
+Definition topk_vec (bottom : bool) (k : nat) (without : bool) (grouping : list N) (slabels : list labels)
+           (vec : list (nat * Z)) : list (nat * Z) :=
+  topk_step Z (ltk bottom) (nonan Z) k (inputs without grouping slabels) (length (groups without grouping slabels)) vec.
+
 Fixpoint zip_vecs (L R : list (Z * list (nat * Z))) : list (Z * list (nat * Z) * list (nat * Z)) :=
   match L, R with
   | (t, a) :: L', (_, b) :: R' => (t, a, b) :: zip_vecs L' R'
@@ -146,6 +179,11 @@ Fixpoint jrun (cf : cfg) (w : window) (t : jtree) {struct t} : list (Z * list (n
       match jrun cf w t with
       | inl strm => inl (agg_stream init add without grouping (jseries t)
                                     (repeat doacc (length (groups without grouping (jseries t)))) strm)
+      | inr e => inr e
+      end
+  | JTopk bottom k without grouping t =>
+      match jrun cf w t with
+      | inl strm => inl (map (fun tv => (fst tv, topk_vec bottom k without grouping (jseries t) (snd tv))) strm)
       | inr e => inr e
       end
   | JInvariant t =>
@@ -194,6 +232,11 @@ Fixpoint jref (lb : Z) (t : jtree) (ts : Z) : option (list (labels * Z)) :=
       | Some smp => Some (ref_agg init add without grouping smp)
       | None => None
       end
+  | JTopk bottom k without grouping t =>
+      match jref lb t ts with
+      | Some smp => ref_topk bottom k without grouping smp
+      | None => None
+      end
   | JInvariant t => jref lb t ts
   end.
 
@@ -206,6 +249,7 @@ Fixpoint jpinned (t : jtree) : Prop :=
   | JMap _ _ t => jpinned t
   | JCount _ _ _ t => jpinned t
   | JAgg _ _ _ _ t => jpinned t
+  | JTopk _ _ _ _ t => jpinned t
   | JInvariant t => jpinned t
   end.
 
@@ -225,6 +269,7 @@ Fixpoint jokw (single : bool) (t : jtree) : Prop :=
   | JCount _ _ _ t => jokw single t
   | JAgg init add _ _ t =>
       jokw single t /\ (forall a b, add (init a) b = add (init b) a) /\ (forall x a b, add (add x a) b = add (add x b) a)
+  | JTopk _ _ _ _ t => jokw single t
   | JInvariant t => jokw true t /\ jpinned t
   end.
 
@@ -422,6 +467,101 @@ Proof.
   apply H. apply NoDup_nodup.
 Qed.
 
+Lemma Trees_filter_filter {A} (p q : A -> bool) (l : list A) : filter p (filter q l) = filter (fun x => q x && p x) l.
+Proof. induction l as [|a l IH]; simpl; [reflexivity|]. destruct (q a); simpl; [destruct (p a)|]; rewrite IH; reflexivity. Qed.
+
+(* ---- the topk node --------------------------------------------------------------------- *)
+
+Lemma ltk_irrefl bottom a : ltk bottom a a = false.
+Proof. destruct bottom; simpl; apply Z.ltb_irrefl. Qed.
+Lemma ltk_trans bottom a b c : ltk bottom a b = true -> ltk bottom b c = true -> ltk bottom a c = true.
+Proof. destruct bottom; simpl; intros; lia. Qed.
+Lemma ltk_total bottom a b : a <> b -> ltk bottom a b = true \/ ltk bottom b a = true.
+Proof. destruct bottom; simpl; intros; lia. Qed.
+
+Lemma nodupb_spec l : nodupb l = true <-> NoDup l.
+Proof.
+  induction l as [|x l IH]; simpl.
+  - split; [constructor|reflexivity].
+  - rewrite andb_true_iff, negb_true_iff, IH. split.
+    + intros [Hn Hnd]. constructor; [|assumption]. intros Hin.
+      assert (existsb (Z.eqb x) l = true) by (apply existsb_exists; exists x; split; [assumption|apply Z.eqb_refl]). congruence.
+    + intros H. inversion H as [|? ? Hn Hnd]; subst. split; [|assumption].
+      destruct (existsb (Z.eqb x) l) eqn:E; [|reflexivity]. apply existsb_exists in E. destruct E as [y [Hy Ey]].
+      apply Z.eqb_eq in Ey. subst y. contradiction.
+Qed.
+
+Lemma filter_length_perm {A} (p : A -> bool) (l l' : list A) : Permutation l l' -> length (filter p l) = length (filter p l').
+Proof. intros H. apply Permutation_length. apply Permutation_filter'. assumption. Qed.
+
+Lemma ref_keep_perm bottom k without grouping (l l' : list (labels * Z)) x :
+  Permutation l l' -> ref_keep bottom k without grouping l x = ref_keep bottom k without grouping l' x.
+Proof. intros H. unfold ref_keep. rewrite (filter_length_perm _ l l' H). reflexivity. Qed.
+
+Lemma ref_keep_filter_perm bottom k without grouping (l l' : list (labels * Z)) : Permutation l l' ->
+  Permutation (filter (ref_keep bottom k without grouping l) l) (filter (ref_keep bottom k without grouping l') l').
+Proof.
+  intros H. rewrite (filter_ext _ _ (fun x => ref_keep_perm bottom k without grouping l l' x H)).
+  apply Permutation_filter'. assumption.
+Qed.
+
+Lemma filter_length_map {A B} (f : A -> B) (p : A -> bool) (q : B -> bool) (l : list A) :
+  (forall a, In a l -> p a = q (f a)) -> length (filter p l) = length (filter q (map f l)).
+Proof.
+  induction l as [|a l IH]; intros H; simpl; [reflexivity|].
+  rewrite <- (H a (or_introl eq_refl)). destruct (p a); simpl; rewrite IH; auto; intros b Hb; apply H; right; assumption.
+Qed.
+
+(* the group of a sample ID and the grouping key of the series' labels *)
+Lemma same_group_iff_same_key without grouping (sl : list labels) i j :
+  (i < length sl)%nat -> (j < length sl)%nat ->
+  (nth i (inputs without grouping sl) 0%nat = nth j (inputs without grouping sl) 0%nat <->
+   group_labels without grouping (nth i sl []) = group_labels without grouping (nth j sl [])).
+Proof.
+  intros Hi Hj.
+  assert (Hik : (i < length (keys without grouping sl))%nat) by (unfold keys; rewrite map_length; assumption).
+  assert (Hjk : (j < length (keys without grouping sl))%nat) by (unfold keys; rewrite map_length; assumption).
+  destruct (groups_spec without grouping sl) as [_ [_ Hgn]].
+  assert (Hg : (nth j (inputs without grouping sl) 0 < length (groups without grouping sl))%nat).
+  { apply nth_error_Some. rewrite (Hgn j Hjk). apply nth_error_Some. assumption. }
+  rewrite <- (nth_keys without grouping sl i Hi), <- (nth_keys without grouping sl j Hj).
+  pose proof (member_iff_key without grouping sl _ i Hg Hik) as Mi.
+  pose proof (member_iff_key without grouping sl _ j Hg Hjk) as Mj.
+  assert (Ej : nth j (keys without grouping sl) [] = nth (nth j (inputs without grouping sl) 0%nat) (groups without grouping sl) [])
+    by (apply Mj; reflexivity).
+  rewrite Ej. exact Mi.
+Qed.
+
+Lemma labelled_filter_keep bottom k without grouping (sl : list labels) (vec : list (nat * Z)) :
+  (forall iv, In iv vec -> (fst iv < length sl)%nat) ->
+  labelled Z sl (filter (step_keep Z (ltk bottom) (inputs without grouping sl) k vec) vec) =
+  filter (ref_keep bottom k without grouping (labelled Z sl vec)) (labelled Z sl vec).
+Proof.
+  intros Hr. unfold labelled at 1 3. rewrite filter_map_comm. f_equal.
+  apply filter_ext_in. intros x Hx.
+  unfold step_keep, rank_keep, better, ref_keep. f_equal.
+  rewrite Trees_filter_filter.
+  unfold labelled. apply filter_length_map. intros y Hy.
+  unfold in_group, group_of, has_key, tkey. simpl.
+  f_equal.
+  destruct (labels_dec (group_labels without grouping (nth (fst y) sl [])) (group_labels without grouping (nth (fst x) sl []))) as [E|NE].
+  - apply Nat.eqb_eq. apply (same_group_iff_same_key without grouping sl); [apply Hr; assumption|apply Hr; assumption|exact E].
+  - apply Nat.eqb_neq. intros E. apply NE. apply (same_group_iff_same_key without grouping sl); [apply Hr; assumption|apply Hr; assumption|exact E].
+Qed.
+
+Lemma ties_free_all without grouping (smp : list (labels * Z)) : ties_free without grouping smp = true ->
+  forall kk, NoDup (map snd (filter (has_key without grouping kk) smp)).
+Proof.
+  intros H kk. unfold ties_free in H. rewrite forallb_forall in H.
+  destruct (in_dec labels_dec kk (map (tkey without grouping) smp)) as [Hin|Hn].
+  - apply nodupb_spec. apply H. apply nodup_In. assumption.
+  - assert (E : filter (has_key without grouping kk) smp = []).
+    { clear H. induction smp as [|mv smp IH]; simpl; [reflexivity|]. simpl in Hn.
+      unfold has_key at 1. destruct (labels_dec (tkey without grouping mv) kk) as [Ek|NE]; [exfalso; apply Hn; left; assumption|].
+      apply IH. intros Hin. apply Hn. right. assumption. }
+    rewrite E. constructor.
+Qed.
+
 Definition good_vec (n : nat) (vec : list (nat * Z)) : Prop :=
   (forall iv, In iv vec -> (fst iv < n)%nat) /\ NoDup (map fst vec).
 
@@ -453,6 +593,7 @@ Fixpoint jdenote (lb : Z) (t : jtree) (ts : Z) : list (nat * Z) :=
       agg_emit (length (groups without grouping (jseries t1)))
                (agg_step init add without grouping (jseries t1)
                          (repeat doacc (length (groups without grouping (jseries t1)))) (jdenote lb t1 ts))
+  | JTopk bottom k without grouping t1 => topk_vec bottom k without grouping (jseries t1) (jdenote lb t1 ts)
   | JInvariant t1 => jdenote lb t1 ts
   end.
 
@@ -487,11 +628,12 @@ Qed.
 
 Lemma jdenote_pinned_indep lb t : jpinned t -> forall ts ts', jdenote lb t ts = jdenote lb t ts'.
 Proof.
-  induction t as [ls sers off pin|keep fn range ls sers off pin|p l IHl r IHr|drops f t IH|conv without grouping t IH|init add without grouping t IH|t IH];
+  induction t as [ls sers off pin|keep fn range ls sers off pin|p l IHl r IHr|drops f t IH|conv without grouping t IH|init add without grouping t IH|bottom k without grouping t IH|t IH];
     intros Hp ts ts'; cbn [jdenote jpinned] in *.
   - destruct pin; [reflexivity|congruence].
   - destruct pin; [reflexivity|congruence].
   - destruct Hp as [Hl Hr]. rewrite (IHl Hl ts ts'), (IHr Hr ts ts'). reflexivity.
+  - rewrite (IH Hp ts ts'). reflexivity.
   - rewrite (IH Hp ts ts'). reflexivity.
   - rewrite (IH Hp ts ts'). reflexivity.
   - rewrite (IH Hp ts ts'). reflexivity.
@@ -512,7 +654,7 @@ Lemma jtree_matches_reference_gen cf :
                forall R, jref (c_lookback cf) t ts = Some R ->
                          Permutation (labelled Z (jseries t) (jdenote (c_lookback cf) t ts)) R.
 Proof.
-  intros HN HB Hlb. induction t as [ls sers off pin|keep fn range ls sers off pin|p l IHl r IHr|drops f t IH|conv without grouping t IH|init add without grouping t IH|t IH];
+  intros HN HB Hlb. induction t as [ls sers off pin|keep fn range ls sers off pin|p l IHl r IHr|drops f t IH|conv without grouping t IH|init add without grouping t IH|bottom k without grouping t IH|t IH];
     intros single Hok w Hw Hstart Hsingle.
   - destruct Hok as [Hlen [Hs Hpin]]. cbn [jdenote]. split.
     + cbn [jrun]. rewrite (run_covers_grid cf w (PSelect sers (eff_off w off pin)) HN HB Hlb Hw Hs). simpl denote. rewrite map_map.
@@ -745,6 +887,53 @@ Proof.
               apply agg_emit_in. split; [exact Hg|]. rewrite (Hslot gi Hg).
               destruct (members Z (inputs without grouping sl) gi (g ts)) as [|v0 ms]; [destruct Hne|].
               simpl. split; [reflexivity|exact Ef].
+  - destruct (IH single Hok w Hw Hstart Hsingle) as [Eg Pg]. cbn [jdenote]. set (g := jdenote (c_lookback cf) t) in *.
+    set (sl := jseries t) in *. split.
+    + cbn [jrun]. rewrite Eg. fold sl. rewrite map_map. reflexivity.
+    + intros ts. destruct (Pg ts) as [[G1 G2] PG].
+      destruct (topk_step_shape Z (ltk bottom) (ltk_irrefl bottom) (ltk_trans bottom) (ltk_total bottom) Z.eq_dec
+                  (inputs without grouping sl) k (length (groups without grouping sl)) (g ts) G2) as [Hincl Hnd].
+      split.
+      * split.
+        -- intros iv Hiv. simpl jseries. fold sl. apply G1. apply Hincl. exact Hiv.
+        -- exact Hnd.
+      * intros R HR. simpl in HR. destruct (jref (c_lookback cf) t ts) as [S0|] eqn:ES; [|discriminate].
+        specialize (PG S0 eq_refl). unfold ref_topk in HR.
+        destruct (ties_free without grouping S0) eqn:Et; [|discriminate]. inversion HR; subst R. clear HR.
+        simpl jseries. fold sl.
+        destruct (Nat.ltb_spec k 1) as [Hk0|Hk].
+        { (* k = 0: nothing is kept on either side *)
+          assert (k = 0)%nat by lia. subst k. unfold topk_vec, topk_step. simpl.
+          rewrite (filter_ext _ (fun _ => false)); [|intros x; unfold ref_keep; apply Nat.ltb_ge; lia].
+          assert (E : forall l : list (labels * Z), filter (fun _ => false) l = []) by (induction l; simpl; auto).
+          rewrite E. constructor. }
+        destruct (groups_spec without grouping sl) as [_ [_ Hgn]].
+        assert (Hrange : forall e, In e (g ts) -> (group_of Z (inputs without grouping sl) e < length (groups without grouping sl))%nat).
+        { intros e He. unfold group_of. apply nth_error_Some. rewrite Hgn; [|unfold keys; rewrite map_length; apply G1; assumption].
+          apply nth_error_Some. unfold keys. rewrite map_length. apply G1. assumption. }
+        assert (Hties : forall gi, NoDup (map snd (filter (in_group Z (inputs without grouping sl) gi) (g ts)))).
+        { intros gi. destruct (lt_dec gi (length (groups without grouping sl))) as [Hgi|Hge].
+          - change (map snd (filter (in_group Z (inputs without grouping sl) gi) (g ts)))
+              with (members Z (inputs without grouping sl) gi (g ts)).
+            rewrite (members_as_filter without grouping sl (g ts) gi Hgi G1).
+            eapply Permutation_NoDup; [apply Permutation_sym; apply Permutation_map; apply Permutation_filter'; exact PG|].
+            apply (ties_free_all without grouping S0 Et).
+          - assert (E : filter (in_group Z (inputs without grouping sl) gi) (g ts) = []).
+            { assert (F : forall l : list (nat * Z), (forall e, In e l -> (group_of Z (inputs without grouping sl) e < length (groups without grouping sl))%nat) ->
+                          filter (in_group Z (inputs without grouping sl) gi) l = []).
+              { induction l as [|e l IHl]; intros Hl; simpl; [reflexivity|].
+                unfold in_group at 1. destruct (Nat.eqb_spec (group_of Z (inputs without grouping sl) e) gi) as [Eq|_].
+                - exfalso. specialize (Hl e (or_introl eq_refl)). lia.
+                - apply IHl. intros e' He'. apply Hl. right. assumption. }
+              apply F. exact Hrange. }
+            rewrite E. constructor. }
+        eapply Permutation_trans.
+        { unfold labelled. apply Permutation_map. unfold topk_vec.
+          apply (topk_step_rank Z (ltk bottom) (ltk_irrefl bottom) (ltk_trans bottom) (ltk_total bottom) Z.eq_dec
+                   (inputs without grouping sl) k (length (groups without grouping sl)) (g ts) Hk G2 Hrange Hties). }
+        fold (labelled Z sl (filter (step_keep Z (ltk bottom) (inputs without grouping sl) k (g ts)) (g ts))).
+        rewrite (labelled_filter_keep bottom k without grouping sl (g ts) G1).
+        apply ref_keep_filter_perm. exact PG.
   - destruct Hok as [Hok Hp]. cbn [jrun jdenote jseries jref].
     assert (Hwp : wf_window (pinned_window w)).
     { destruct Hw as [_ [Hst _]]. unfold pinned_window, wf_window. simpl. repeat split; try lia. }
